@@ -1,11 +1,68 @@
-import Dtaiverif.Proofs.GridDP
+/-
+Props/C01.lean — C01: the pure-Python DTW distance equals the optimum over admissible warping paths.
+Property theorems only; helper lemmas live in Proofs/.
+Model: `distModel` (Model/Dtw.lean) = kernel of `dtw.distance` incl. band, psi borders, max_step,
+penalty, early-abandoning bookkeeping and end-point selection; value in internal representation
+(the harness applies the monotone result transform, e.g. sqrt).
+-/
+import Dtaiverif.Proofs.Dist
+import Dtaiverif.Proofs.CostInst
+
 namespace Dtai
 variable {α : Type} [LinearOrderedAddCommMonoidWithTop α]
 
+/-- With `max_dist` off, `dtw.distance` returns `⊤` when the length difference exceeds
+`max_length_diff` and otherwise `dtwSpec`, for every size, window, psi, penalty, max_step, cost. -/
+theorem C01_distance_eq_spec (g : Grid α) (h : g.NonNeg) (mld : Option Nat) (chk : Bool) :
+    distModel g ⊤ mld chk = distSpec g mld :=
+  distModel_eq_spec g h mld chk
+
+/-- `dtwSpec` is a lower bound of the cost of every admissible complete warping path … -/
+theorem C01_spec_le_every_path (g : Grid α) (h : g.NonNeg) (path : List Cell) (q : Cell)
+    (hv : g.ValidRev (q :: path)) (he : g.EndOk q) : dtwSpec g ≤ g.costRev (q :: path) :=
+  dtwSpec_le_path g h path q hv he
+
+/-- … and it is attained by one (or is `⊤`), for non-degenerate psi: it is the minimum. -/
+theorem C01_spec_attained (g : Grid α) (h : g.NonNeg) (hn : g.NonDegenerate) :
+    dtwSpec g = ⊤ ∨ ∃ (q : Cell) (path : List Cell), g.ValidRev (q :: path) ∧ g.EndOk q ∧
+      g.costRev (q :: path) = dtwSpec g :=
+  dtwSpec_attained g h hn
+
+/-- The distance is infinite exactly when every admissible complete path has infinite cost
+(in particular when there is none). -/
+theorem C01_infinite_iff (g : Grid α) (h : g.NonNeg) (hn : g.NonDegenerate) :
+    dtwSpec g = ⊤ ↔ ∀ (q : Cell) (path : List Cell), g.ValidRev (q :: path) → g.EndOk q →
+      g.costRev (q :: path) = ⊤ := by
+  constructor
+  · intro ht q path hv he
+    exact top_le_iff.mp (ht ▸ dtwSpec_le_path g h path q hv he)
+  · intro hall
+    rcases dtwSpec_attained g h hn with ht | ⟨q, path, hv, he, hc⟩
+    · exact ht
+    · rw [← hc]; exact hall q path hv he
+
+/-- cell-level statement used by C04/C13: every cell of the recurrence is the optimum over partial
+paths ending there -/
 theorem C01_cell_lower_bound (g : Grid α) (h : g.NonNeg) (path : List Cell) (q : Cell)
     (hv : g.ValidRev (q :: path)) : D g (q.1+1) (q.2+1) ≤ g.costRev (q :: path) :=
   D_le_costRev g h path q hv
 
 theorem C01_cell_attained (g : Grid α) (h : g.NonNeg) (I J : Nat) : Att g I J :=
   D_attained g h (I+J) I J rfl
+
+/-- The theorems apply verbatim to the executable domain the driver runs (`Cost` = ℕ ∪ {∞}). -/
+theorem C01_at_driver_domain (g : Grid Cost) (h : g.NonNeg) (mld : Option Nat) :
+    distModel g Cost.inf mld true = distSpec g mld :=
+  distModel_eq_spec g h mld true
+
+/- non-vacuity: a concrete grid meets the hypotheses and has a finite optimum -/
+def exGrid : Grid Cost :=
+  { r := 3, c := 2, window := 2, pen := 1, maxStep := .inf, psi1b := 0, psi1e := 1, psi2b := 0, psi2e := 0,
+    cost := fun i j => .fin ((i + 2 * j) % 3) }
+
+example : exGrid.NonDegenerate := ⟨by decide, by decide, by decide, by decide⟩
+example : exGrid.NonNeg := ⟨fun _ _ => by simp [exGrid, Cost.le_def, Cost.le], by decide⟩
+example : dtwSpec exGrid = .fin 0 := by decide +kernel
+example : dtwSpec { exGrid with psi1e := 0 } = .fin 2 := by decide +kernel
+
 end Dtai
